@@ -1,6 +1,8 @@
 package main
 
 import (
+	"encoding/json"
+	"bytes"
 	"fmt"
 	"go/ast"
 	"go/build"
@@ -243,6 +245,50 @@ func init() {
 			}
 			if r.ByName("e_no_such_lint") != nil || r.CertificateLints().ByName("e_no_such_lint") != nil {
 				out.Violate("C12|registry-byname-unknown", what+": a lookup of an unregistered name returns a lint", nil, nil, nil)
+			}
+		}
+		// the full listing (WriteJSON, what -list-lints-json prints) agrees with the name list and with the per-kind
+		// lookups: every registered lint of every kind exactly once, under its own name, source and description
+		for what, r := range regsToProbe {
+			var b bytes.Buffer
+			r.WriteJSON(&b)
+			listed := map[string]int{}
+			listedMeta := map[string]string{}
+			for _, ln := range strings.Split(strings.TrimSpace(b.String()), "\n") {
+				if ln == "" {
+					continue
+				}
+				var m struct {
+					Name        string `json:"name"`
+					Description string `json:"description"`
+					Source      string `json:"source"`
+				}
+				if err := json.Unmarshal([]byte(ln), &m); err != nil {
+					out.Violate("C12|listing-undecodable", what+": a line of the full listing is not a JSON object: "+err.Error(), ln, nil, nil)
+					continue
+				}
+				listed[m.Name]++
+				listedMeta[m.Name] = m.Source + "|" + m.Description
+			}
+			wantMeta := map[string]string{}
+			for _, l := range r.CertificateLints().Lints() {
+				wantMeta[l.Name] = string(l.Source) + "|" + l.Description
+			}
+			for _, l := range r.RevocationListLints().Lints() {
+				wantMeta[l.Name] = string(l.Source) + "|" + l.Description
+			}
+			for _, l := range r.OcspResponseLints().Lints() {
+				wantMeta[l.Name] = string(l.Source) + "|" + l.Description
+			}
+			for _, n := range r.Names() {
+				if listed[n] != 1 {
+					out.Violate("C12|listing-disagrees:"+n, fmt.Sprintf("%s: the full listing has %d lines for the registered lint %s", what, listed[n], n), n, 1, listed[n])
+				} else if listedMeta[n] != wantMeta[n] {
+					out.Violate("C12|listing-metadata:"+n, fmt.Sprintf("%s: the full listing describes %s as %q, its registration says %q", what, n, listedMeta[n], wantMeta[n]), n, wantMeta[n], listedMeta[n])
+				}
+			}
+			if len(listed) != len(wantMeta) || len(r.Names()) != len(wantMeta) {
+				out.Violate("C12|listing-count", fmt.Sprintf("%s: %d names, %d lints in the per-kind listings, %d distinct names in the full listing", what, len(r.Names()), len(wantMeta), len(listed)), nil, len(wantMeta), len(listed))
 			}
 		}
 		for _, s := range g.Sources() {
